@@ -255,6 +255,20 @@ pub fn main(tier: Tier, replay: Option<String>) -> i32 {
     let alpha = syms(&["あ", "。", "と"], &["！", ".", "．", "(", ")", "「", "」", "1", "a", " ", "<br>", "・", ",", "モー娘。", "な。な", "𠮷", "な", "？"]);
     let bounds = tier.pick(TreeBounds { full_len: 3, ext_len: 6, max_special: 2 }, TreeBounds { full_len: 4, ext_len: 7, max_special: 2 });
     let b = json!({"tree": bounds.to_json(), "limits": [1, 2, 3, 5, 4096], "checker": ["none", "dictionary"]});
-    let jobs = vec![job(SentSpace { world, alpha, bounds, limits: vec![1, 2, 3, 5, 4096] }, Strategy::Dfs, Some(tier.pick(50, 3000)), b)];
+    let mut jobs = vec![job(SentSpace { world, alpha: alpha.clone(), bounds: bounds.clone(), limits: vec![1, 2, 3, 5, 4096] }, Strategy::Dfs, Some(tier.pick(50, 3000)), b.clone())];
+    // the same with the words that contain a terminator living in user dictionaries, while the
+    // system dictionary holds shorter words starting at the same place (the checker consults all
+    // layers: the order in which they answer must not matter)
+    let mut spec = spec_full("W-sent-layers", false);
+    spec.system.retain(|r| r.surface != "モー娘。");
+    spec.system.push(Row::new("な", 8, 8, 3000, P_NOUN));
+    spec.system.push(Row::new("モー", 8, 8, 3000, P_NOUN));
+    spec.system.push(Row::new("！？", 5, 5, 1000, P_SYM));
+    spec.users.push(vec![Row::new("な。な", 8, 8, 2914, P_NOUN), Row::new("な。", 8, 8, 2914, P_NOUN)]);
+    spec.users.push(vec![Row::new("モー娘。", 6, 6, 2000, P_PROPN), Row::new("モ", 8, 8, 2914, P_NOUN)]);
+    let world2 = Arc::new(World::build(spec).expect("W-sent-layers"));
+    let bounds2 = tier.pick(TreeBounds { full_len: 3, ext_len: 5, max_special: 2 }, TreeBounds { full_len: 4, ext_len: 7, max_special: 2 });
+    let b2 = json!({"tree": bounds2.to_json(), "limits": [2, 5, 4096], "checker": ["none", "dictionary"], "layers": "system + 2 user dictionaries"});
+    jobs.push(job(SentSpace { world: world2, alpha, bounds: bounds2, limits: vec![2, 5, 4096] }, Strategy::Dfs, Some(tier.pick(50, 3000)), b2));
     drive(rep, jobs, replay)
 }
